@@ -52,17 +52,17 @@ theorem base_attach {i : Input} {al : AList} (w : ALwf i al) {b m : String} {ab 
   obtain ⟨recs, hcls, r, hr, hrg⟩ := pair_class w p hok
   -- the attachment of glyph b
   obtain ⟨as', has', hab'⟩ := pair_prune_b w p
-  have hbm : (⟨ab, "MC" ++ am.name⟩ : BAnchor) ∈ baseBM (kmOf i al) as' := mem_baseBM hab' hpl hnum hcl
+  have hbm : (⟨ab, cnOf i al am.name⟩ : BAnchor) ∈ baseBM (kmOf i al) as' := mem_baseBM hab' hpl hnum hcl
   have hatt0 : (b, baseBM (kmOf i al) as') ∈ baOf i al := baseAtts_mem has' hnmg hbase (ne_nil_of_mem hbm)
   -- its group
-  have hmem : members (clsOf i al) ("MC" ++ am.name) ≠ [] := by
+  have hmem : members (clsOf i al) (cnOf i al am.name) ≠ [] := by
     rw [members_clsOf w hcls]; exact ne_nil_of_mem (mem_map.mpr ⟨r, hr, rfl⟩)
   obtain ⟨grp, hgrp, hcn⟩ := group_has (i := i) (al := al) ((baOf i al).flatMap (fun att => att.2.map (·.cls)))
     (classOf_alookup hcl)
     (mem_flatMap.mpr ⟨_, hatt0, mem_map.mpr ⟨_, hbm, rfl⟩⟩) hmem
   have hgrp' : grp ∈ bgroupsOf i al := hgrp
   -- the grouped attachment
-  have hfb : (⟨ab, "MC" ++ am.name⟩ : BAnchor) ∈ (baseBM (kmOf i al) as').filter (fun x => grp.contains x.cls) :=
+  have hfb : (⟨ab, cnOf i al am.name⟩ : BAnchor) ∈ (baseBM (kmOf i al) as').filter (fun x => grp.contains x.cls) :=
     mem_filter.mpr ⟨hbm, by simpa using hcn⟩
   have hfilter : filterBase grp (b, baseBM (kmOf i al) as') =
       some (b, (baseBM (kmOf i al) as').filter (fun x => grp.contains x.cls)) := by
@@ -81,7 +81,7 @@ theorem base_attach {i : Input} {al : AList} (w : ALwf i al) {b m : String} {ab 
       if bm.isEmpty then none else some (⟨att.1, [compAST bm]⟩ : Entry)) = es
   -- every entry for glyph b carries the anchor of the pair
   have hentry : ∀ e ∈ es, e.glyph = b →
-      ∃ bm, e.comps = [compAST bm] ∧ (⟨ab, "MC" ++ am.name⟩ : BAnchor) ∈ bm := by
+      ∃ bm, e.comps = [compAST bm] ∧ (⟨ab, cnOf i al am.name⟩ : BAnchor) ∈ bm := by
     intro e he heg
     rw [← hes] at he
     obtain ⟨att', hatt', hfe⟩ := mem_filterMap.mp he
@@ -118,7 +118,7 @@ theorem base_attach {i : Input} {al : AList} (w : ALwf i al) {b m : String} {ab 
     refine mem_filterMap.mpr ⟨_, mem_filter.mpr ⟨hatt, hinc⟩, ?_⟩
     simp only
     rw [if_neg]
-    have : (⟨ab, "MC" ++ am.name⟩ : BAnchor) ∈ ((baseBM (kmOf i al) as').filter (fun x => grp.contains x.cls)).filter (fun x => mf x.a) :=
+    have : (⟨ab, cnOf i al am.name⟩ : BAnchor) ∈ ((baseBM (kmOf i al) as').filter (fun x => grp.contains x.cls)).filter (fun x => mf x.a) :=
       mem_filter.mpr ⟨hfb, hmf⟩
     cases hh : ((baseBM (kmOf i al) as').filter (fun x => grp.contains x.cls)).filter (fun x => mf x.a) with
     | nil => rw [hh] at this; simp at this
@@ -131,14 +131,14 @@ theorem base_attach {i : Input} {al : AList} (w : ALwf i al) {b m : String} {ab 
     | nil => simp at he0
     | cons _ _ => simp
   refine ⟨_, hL, attachLookup_isSome rfl ⟨_, he0, rfl⟩ ?_ ?_⟩
-  · refine ⟨("MC" ++ am.name, recs), hcls, ?_, r, hr, hrg⟩
+  · refine ⟨(cnOf i al am.name, recs), hcls, ?_, r, hr, hrg⟩
     obtain ⟨bm, hc, hx⟩ := hentry _ he0 rfl
     exact mem_usedClasses.mpr ⟨_, he0, compAST bm, by rw [hc]; simp, _, mem_compAST_of hx, rfl⟩
   · intro e he heg cls hcls' hu hm
     obtain ⟨bm, hc, hx⟩ := hentry e he heg
     obtain ⟨e', he', comp', hcomp', t', ht', htc'⟩ := mem_usedClasses.mp hu
     have hin : cls.1 ∈ grp := by rw [← htc']; exact hused e' he' comp' hcomp' t' ht'
-    have hsame : cls.1 = "MC" ++ am.name :=
+    have hsame : cls.1 = cnOf i al am.name :=
       same_class_in_group w _ hgrp hin hcn (r1 := cls.2) (r2 := recs) hcls' hcls hm ⟨r, hr, hrg⟩
     refine ⟨compAST bm, by rw [hc]; rfl, _, mem_compAST_of hx, hsame.symm⟩
 
